@@ -82,6 +82,37 @@ def fam_snap(seed, i, tier):
                        "reads": False, "w": {"submit": 14, "fire": 5, "hb": 12, "snapnow": 5, "gate": 3, "release": 5, "crash": 1, "armcrash": 2, "restart": 6, "adv": 3}}}
 
 
+def load_domain(name):
+    import gzip
+    with gzip.open(os.path.join(ROOT, "corpus", "domains", name + ".jsonl.gz"), "rt") as f:
+        return [json.loads(l) for l in f if l.strip()]
+
+
+def hae_scenario(name, case):
+    """one (follower state, AppendEntries request) pair of the TLC-enumerated domain, on a real node"""
+    prep = dict(case["prep"])
+    ents = prep["ents"]
+    last = ents[-1]
+    st = []
+    if case["commit"] > prep.get("snap_idx", 0):
+        # bring the commit index to the case's value with a well-formed heartbeat of the node's own term
+        st.append({"op": "inject", "n": "c", "kind": "ae", "from": "a",
+                   "req": {"term": prep["term"], "prev": last["i"], "prevt": last["t"], "commit": case["commit"], "ents": []}})
+    st.append({"op": "inject", "n": "c", "kind": "ae", "from": "b", "req": case["req"], "exp": case["exp"]})
+    return {"name": name, "family": "hae", "voters": ["a", "b", "c"], "no_start": ["a", "b"], "controlled": True, "auto": False, "heal": False,
+            "prep": {"c": prep}, "stimuli": st}
+
+
+def fam_hae_all(seed, tier):
+    cases = load_domain("hae-K2T2")
+    rng = random.Random(sseed(seed, "hae", 0))
+    idx = list(range(len(cases)))
+    rng.shuffle(idx)
+    take = idx[:1600] if tier == "quick" else idx
+    return [hae_scenario("hae-%d" % k, cases[k]) for k in take], {"handler_domain": "hae-K2T2", "handler_domain_size": len(cases),
+                                                                  "handler_cases_run": len(take), "handler_domain_exhaustive": len(take) == len(cases)}
+
+
 FAMILIES = {"snap": fam_snap, "healthy": fam_healthy, "core": fam_core, "crash": fam_crash, "reads": fam_reads, "member": fam_member, "member5": fam_member5}
 
 # ---- API programs (C18): enumerated by TLC from Api.tla ------------------------------------
@@ -280,7 +311,7 @@ PROPS = {
     "C03": dict(fams=[("core", 4), ("crash", 1)], corpus=["core"], mc="MC_core3", mc_deep="MC_core3_deep", gen=[("Gen_core3", ["a", "b", "c"], 40)]),
     "C04": dict(fams=[("crash", 5)], corpus=["crash"], mc="MC_crash3", mc_deep="MC_crash3_deep"),
     "C05": dict(fams=[("reads", 5)], corpus=["reads"], mc="MC_reads"),
-    "C06": dict(fams=[("core", 3), ("crash", 2)], corpus=["core", "crash"], mc="MC_core3", mc_deep="MC_core3_deep", gen=[("Gen_core3", ["a", "b", "c"], 40)]),
+    "C06": dict(fams=[("core", 3), ("crash", 2)], corpus=["core", "crash"], mc="MC_core3", mc_deep="MC_core3_deep", gen=[("Gen_core3", ["a", "b", "c"], 40)], hae=True),
     "C07": dict(fams=[("core", 3), ("crash", 2)], corpus=["core", "crash"], mc="MC_core3", mc_deep="MC_core3_deep", gen=[("Gen_core3", ["a", "b", "c"], 40)]),
     "C08": dict(fams=[("core", 2), ("crash", 3)], corpus=["core", "crash"], mc="MC_crash3", mc_deep="MC_crash3_deep"),
     "C14": dict(fams=[("crash", 4), ("snap", 2)], corpus=["crash", "snap"], mc="MC_crash3", mc_deep="MC_crash3_deep"),
@@ -310,6 +341,10 @@ def gen_scenarios(prop, tier, seed, workdir):
         scs += gen_spec_behaviours(cfgname, workdir, unit * 4, depth, seed, voters)
     if spec.get("api"):
         a, extra = fam_api_all(seed, tier, workdir)
+        scs += a
+        EXTRA_COV.update(extra)
+    if spec.get("hae"):
+        a, extra = fam_hae_all(seed, tier)
         scs += a
         EXTRA_COV.update(extra)
     return scs
